@@ -59,7 +59,9 @@ Record raw_entry := {
   r_usage_ok : bool }.      (* pkix.ValidateCertificate with KeyUsageDigitalSignature at load time *)
 
 (** the file: unreadable / undecodable / unsupported block  |  its key blocks in file order
-    (a file without any PEM block is [PemOk []]) *)
+    (a file of white space only is [PemOk []]; since the fix for C19-F10 any other undecodable
+    rest after the last complete entry — a file cut inside an entry, trailing text — makes the
+    file [PemBad] instead of a store of the entries before it) *)
 Inductive pem_file := PemBad | PemOk (es : list raw_entry).
 
 Record entry := {
